@@ -174,6 +174,29 @@ fn mutate(rng: &mut Rng, s: &str) -> String {
 
 pub fn generate(rng: &mut Rng, thorough: bool) -> Vec<String> {
     let mut v = Vec::new();
+    // every reader on full date-time strings with each shape of offset and annotation: offsets below one hour with
+    // either sign (the sign belongs to the whole offset, not to its hour), second 60, seconds and fractions in the
+    // offset, the UTC designator alone and followed by a bracketed zone (plain types refuse it either way)
+    for d in ["2019-10-01", "20191001", "-000001-03-04", "+275760-09-13", "1969-12-31", "2016-12-31"] {
+        for t in ["T09:00:00", "t23:59:60", "T235960.5", "T00:00", " 12:34:56.789012345", "T23:59:60.9999995"] {
+            for o in ["", "Z", "z", "+00:00", "-00:00", "-00:30", "+00:30", "-00:01", "-00:59", "-0045", "-00:00:30", "-00:00:00.5", "-00:30:15.25", "+23:59", "-23:59:59.999999999", "\u{2212}00:30", "-01:00", "-03:30"] {
+                for a in ["", "[UTC]", "[America/New_York]", "[+01:00]", "[-00:30]", "[!-03:30]", "[u-ca=iso8601]", "[UTC][u-ca=gregory]", "[!u-ca=iso8601][u-ca=gregory]", "[u-ca=iso8601][!u-ca=gregory]", "[Etc/Unknown]"] {
+                    if !thorough && !(o.starts_with("-00") || o == "Z" || o == "z" || o.is_empty() || a.is_empty() || a == "[UTC]") && rng.chance(3, 4) { continue; }
+                    let st = format!("{d}{t}{o}{a}");
+                    let h = hex(st.as_bytes());
+                    for ty in ["date", "datetime", "time", "yearmonth", "monthday", "instant", "tz"] {
+                        if thorough || ty == "instant" || ty == "monthday" || rng.chance(1, 3) {
+                            v.push(format!("p_{ty} {h}"));
+                        }
+                    }
+                    if (a.starts_with("[UTC]") || a.starts_with("[+") || a.starts_with("[-") || a.starts_with("[!-")) && (thorough || rng.chance(1, 3)) {
+                        v.push(format!("p_zdt {h} {} {}", rng.pick(&["compatible", "earlier", "later", "reject"]), rng.pick(&["use", "prefer", "ignore", "reject"])));
+                        v.push(format!("p_rel {h}"));
+                    }
+                }
+            }
+        }
+    }
     let n = if thorough { 40000 } else { 5000 };
     for ty in TYPES {
         for _ in 0..n / 3 {
